@@ -22,6 +22,7 @@ RULE = ("Every decoder call on untrusted input is recorded as one event (child p
         "Merkle header, and bags with no / two roots; they enter through the library's BoC reader. A budget breach, Timeout or Crash is re-run from "
         "its recorded input and reported only if it happens again. distinct = distinct inputs executed.")
 
+END_RE = re.compile(r'"k":\s*"End"')
 AS_LIMIT = 4 << 30      # RLIMIT_AS of every driver process: an allocation bomb kills the child, not the machine
 PARTS_TL = 16
 
@@ -136,7 +137,7 @@ class Job:
                 raise Infra("C08 driver %s died before its first record (rc=%d): %s" % (self.name, p.returncode, p.stdout[-1500:]))
             if last.get("k") == "Begin":
                 c = {"k": "Crash", "why": why_of(p.stdout)}
-                for f in ("i", "kind", "site", "class", "type", "ty", "op"):
+                for f in ("i", "kind", "site", "class", "type", "ty", "op", "guard"):
                     if f in last:
                         c[f] = last[f]
                 self.crashes.append(c)
@@ -230,11 +231,14 @@ def key_of(e, note, b=None):
     kind = e.get("kind", k)
     what = {"Panic": "panic", "Timeout": "timeout", "Crash": "crash"}.get(k, note or "rejected")
     if kind == "TlDecode":
-        if cls.startswith("veccount:") and what in ("crash", "alloc", "timeout", "time"):
+        # the input class is what the bytes are with respect to the type (first guard of the TL reading they fail),
+        # not the mutation that happened to produce them
+        guard = e.get("guard") or (b or {}).get("guard") or cls
+        if guard == "vector_count" and what in ("crash", "alloc", "timeout", "time"):
             return "C08:tl.vector:count_alloc"
-        if cls.startswith("byteslen:") and what in ("crash", "alloc", "timeout", "time"):
+        if guard == "bytes_len" and what in ("crash", "alloc", "timeout", "time"):
             return "C08:tl.bytes:len_alloc"
-        return "C08:tl:%s:%s:%s" % (e.get("ty"), cls, what)
+        return "C08:tl:%s:%s:%s" % (e.get("ty"), guard, what)
     if kind in ("Decode", "Bag"):
         return "C08:tlb:%s:%s:%s" % (e.get("type"), re.sub(r"^specgen:", "", cls), what)
     site = re.sub(r"^(liteapi|code|liteclient)\.", "", e.get("site", "?"))
@@ -351,7 +355,7 @@ def run(ck):
             for j in g:
                 with open(j.trace) as f:
                     for l in f:
-                        if '"k":"End"' in l:
+                        if END_RE.search(l):
                             continue
                         out.write(l)
                         origin.append(j)
